@@ -4,7 +4,10 @@ package nebula
 
 import (
 	"net/netip"
+	"runtime"
 	"slices"
+	"strings"
+	"sync"
 	"sync/atomic"
 )
 
@@ -77,3 +80,47 @@ func verifSortAddrs(a []netip.Addr) {
 }
 
 func verifSortU32(a []uint32) { slices.Sort(a) }
+
+// verifRWMutex / verifMutex wrap the sync types: every acquisition is a lock
+// point (verifLockPoint), so under a simulator a goroutine never blocks for
+// real on a lock held by a parked goroutine. Without a hook installed they cost
+// one atomic load per acquisition.
+type verifRWMutex struct{ mu sync.RWMutex }
+
+func (m *verifRWMutex) Lock() {
+	if verifYieldHook.Load() != nil {
+		verifLockPoint("Lock@"+verifCaller(), &m.mu)
+	}
+	m.mu.Lock()
+}
+func (m *verifRWMutex) RLock() {
+	if verifYieldHook.Load() != nil {
+		verifRLockPoint("RLock@"+verifCaller(), &m.mu)
+	}
+	m.mu.RLock()
+}
+func (m *verifRWMutex) Unlock()        { m.mu.Unlock() }
+func (m *verifRWMutex) RUnlock()       { m.mu.RUnlock() }
+func (m *verifRWMutex) TryLock() bool  { return m.mu.TryLock() }
+func (m *verifRWMutex) TryRLock() bool { return m.mu.TryRLock() }
+
+type verifMutex struct{ mu sync.Mutex }
+
+func (m *verifMutex) Lock() {
+	if verifYieldHook.Load() != nil {
+		verifLockPoint("Lock@"+verifCaller(), &m.mu)
+	}
+	m.mu.Lock()
+}
+func (m *verifMutex) Unlock()       { m.mu.Unlock() }
+func (m *verifMutex) TryLock() bool { return m.mu.TryLock() }
+
+// verifCaller names the function that asked for the lock (site label of the schedule trace).
+func verifCaller() string {
+	pc, _, _, ok := runtime.Caller(2)
+	if !ok {
+		return "?"
+	}
+	n := runtime.FuncForPC(pc).Name()
+	return n[strings.LastIndexByte(n, '/')+1:]
+}
